@@ -160,6 +160,24 @@ def roundtrips(p, exp, tol, label):
         raise
     except Exception as e:
         dis.append({"clause": "Raises", "detail": "%s Subpath.d() round trip raised %s: %s" % (label, type(e).__name__, str(e)[:80])})
+    # the text is that of the path as it is NOW: the same object, written above, is moved in place and written again
+    try:
+        dx, dy = 3.0, -2.0
+        p *= svg.Matrix.translate(dx, dy)
+
+        def sh(v):
+            return None if v is None else [v[0] + dx, v[1] + dy]
+        moved = [[e[0], sh(e[1]), sh(e[2]) if e[0] in ("Q", "C") else e[2], sh(e[3]) if e[0] == "C" else e[3], sh(e[4])] for e in exp]
+        for r, s in ((None, None), (True, True), (False, False)):
+            d = p.d(relative=r, smooth=s)
+            for x in compare(svg.Path(d), moved, tol, "%s moved in place by (3,-2), then d(relative=%s, smooth=%s) = %r" % (label, r, s, d), orig=p):
+                x["stage"] = "after_move"          # (same clauses as before the move: the six-digit radii finding applies alike)
+                x["relative"], x["smooth"] = r, s
+                dis.append(x)
+    except engine.CaseTimeout:
+        raise
+    except Exception as e:
+        dis.append({"clause": "Raises", "detail": "%s d() after an in-place move raised %s: %s" % (label, type(e).__name__, str(e)[:80])})
     return dis
 
 
